@@ -116,7 +116,7 @@ def discharge(vc, use_cvc5=True, timeout_ms=None):
     if use_cvc5 and os.path.exists(CVC5):
         smt = s.to_smt2()
         if 'lambda' not in smt:
-            rc = run_cvc5(smt, (timeout_ms or Z3_TIMEOUT_MS) // 1000 + 1)
+            rc = run_cvc5(smt, min(timeout_ms or Z3_TIMEOUT_MS, 20000) // 1000 + 1)
             if rc == 'unsat':
                 v.status, v.backend = 'discharged', 'cvc5'
                 v.time = time.time() - t0
